@@ -262,8 +262,14 @@ impl<JT: JobContextTransition + Send + Sync> OptionalBreakState<JT> {
                         let is_not_on_time = !is_on_proper_time(route_ctx, break_single, &activity.schedule)
                             || !can_be_scheduled(route_ctx, break_single, &self.break_fns.policy_fn);
                         let is_ovrp_last = route_ctx.route().tour.end().is_some_and(|end| std::ptr::eq(activity, end));
+                        // NOTE a tour which has only breaks left (e.g. all other jobs were removed) serves nothing
+                        let is_alone = route_ctx
+                            .route()
+                            .tour
+                            .jobs()
+                            .all(|job| job.as_single().is_some_and(|single| (self.break_fns.is_break_single_fn)(single)));
 
-                        if is_orphan || is_not_on_time || is_ovrp_last {
+                        if is_orphan || is_not_on_time || is_ovrp_last || is_alone {
                             breaks.insert(Job::Single(break_single.clone()));
                         }
 
